@@ -40,12 +40,12 @@ def oracle_c13(st, info, snaps):
     if info.outcome == "raise":
         st.cnt("failed-call-atomic")
         st.probe("raised_" + info.kind.split(":")[0])
-        for a, s in snaps:
+        for a, s in list(snaps) + list(info.extra_snaps):
             if not same_as_snap(s, a):
                 raise Violation("failed-call-atomic",
                                 f"{info.kind} raised {exc_class(info.exc)} but an array over {s[0] and [d[0] for d in s[0]]} was changed",
                                 cls=_cls("failed-call-atomic", info), op=info.kind)
-    arrays = [a for a, _ in snaps] + list(info.results)
+    arrays = [a for a, _ in snaps] + list(info.results) + [a for a, _ in info.extra_snaps]
     if info.stock is not None:
         arrays += [info.stock.stock, info.stock.inflow, info.stock.outflow]
     check_shape_invariant(st, arrays, info)
@@ -233,8 +233,8 @@ def oracle_c05(st, info, snaps):
         return
     # FlodymArray source
     sdims, svals, _, _ = c["rhs_snap"]
-    if not isinstance(svals, np.ndarray):
-        return
+    if not isinstance(svals, np.ndarray) or svals.dtype.kind not in "fiub" or getattr(t.values, "dtype", np.dtype(float)).kind not in "fiub":
+        return  # arrays of objects / text (only a defective flodym lets them into the pool) are not summed by the reference
     tdims = list(tsig)
     L = region_letters(tdims, ki.sel)
     sletters = [d[0] for d in sdims]
@@ -413,6 +413,8 @@ def gen_op(rng, st, cfg):
     if kind == "set_values":
         if rng.chance(0.15):
             return {"op": "set_values", "t": s, "num": rng.randint(-3, 9)}
+        if rng.chance(fp * 0.5):
+            return {"op": "set_values", "t": s, "unconvertible": rng.choice(["object", "text"]), "via_setitem": rng.chance(0.5), "vseed": rng.randint(0, 10 ** 6)}
         op = {"op": "set_values", "t": s, "vseed": rng.randint(0, 10 ** 6), "mem": rng.weighted([("c", 5), ("fortran", 2), ("reversed", 1), ("strided", 1)])}
         sf = gen_shape_fault(rng, fp * 2)
         if sf:
@@ -449,7 +451,7 @@ def gen_op(rng, st, cfg):
         return {"op": "stock_convert", "k": rng.randint(0, 3), "how": rng.choice(["to_stock_type", "stock_stack"]),
                 "cls": rng.choice(["simple", "inflow", "stockdriven"]), "dim": rng.randint(0, 5), "same_class_bad_kw": rng.chance(0.2)}
     if kind == "system":
-        return {"op": "system", "then": rng.choice(["build", "dict_numpy", "dict_pandas", "new_array", "check"])}
+        return {"op": "system", "then": rng.choice(["build", "dict_numpy", "dict_pandas", "new_array", "check", "check_twice", "relative"])}
     if kind == "stock_compute" and rng.chance(0.15):
         return {"op": "stock_poison", "k": rng.randint(0, 3)}
     if kind == "stock_compute":
